@@ -122,6 +122,15 @@ Safe ==
          \A cns \in AutoescapeAttrs, ct \in AutoescapeAttrs, chain \in SiteChains, vi \in DOMAIN SiteVals :
            (kase.site \in CalleeSites \/ (cns = "unspecified" /\ ct = "unspecified")) =>
              SafeCase(kase.site, [ns |-> kase.ns, t |-> kase.t, cns |-> cns, ct |-> ct], chain, SiteVals[vi])
+    [] kase.m = "cmds" /\ kase.cmd = "none" /\ kase.site = "direct" ->
+         \* neither the shape of the printed expression nor an attribute other than
+         \* `autoescape` influences what a print writes
+         /\ \A sh \in ExprShapes, on \in BOOLEAN, chain \in SiteChains, vi \in DOMAIN SiteVals :
+              PrintTextShape(on, chain, SiteVals[vi], sh) = PrintText(on, chain, SiteVals[vi])
+         /\ \A p \in AutoescapeAttrs \X AutoescapeAttrs, k \in TemplateKinds, pr \in PrivateAttrs :
+              EffectiveEscapeX(p[1], p[2], [kind |-> k, private |-> pr]) = EffectiveEscapeTable[p]
+         /\ \A a \in CmdAttrs, chain \in SiteChains, vi \in DOMAIN SiteVals :
+              CmdIndependent(kase.site, a, chain, SiteVals[vi], kase.cmd, kase.lognil)
     [] kase.m = "cmds" /\ kase.cmd # "-" ->
          \* (the bare sites themselves are checked safe in Mode = "sites")
          \A a \in CmdAttrs, chain \in SiteChains, vi \in DOMAIN SiteVals :
@@ -164,7 +173,8 @@ Export ==
   kase.m = "export" =>
     /\ PrintT(ToJson([vals |-> ExportVals,
                       texts |-> [i \in DOMAIN ExportVals |-> IF Printable(ExportVals[i]) THEN ToText(ExportVals[i]) ELSE ""],
-                      cmds |-> SetToSeq(CmdKinds),
+                      cmds |-> SetToSeq(CmdKinds), shapes |-> SetToSeq(ExprShapes),
+                      kinds |-> SetToSeq(TemplateKinds), privates |-> SetToSeq(PrivateAttrs),
                       canary |-> "é€\"\\\n<&>'"]))
     /\ \A site \in Sites, a \in Attr4 :
          (site \in CalleeSites \/ (a.cns = "unspecified" /\ a.ct = "unspecified")) =>
